@@ -236,7 +236,7 @@ func (c *c03) e2eCase(r *vkit.RNG, cs c03E2ECase) error {
 	}
 	res = append(res, c03ErrClass(attempt()))
 	if err := sa.Close(ctx); err == nil {
-		mon.restart("graceful-restart")
+		mon.restart("graceful-restart", 0)
 		mon.checkPersisted(base)
 		sa = light.NewShareAvailability(rec, base, nil, light.WithSampleAmount(n))
 		res = append(res, c03ErrClass(attempt()))
